@@ -274,6 +274,46 @@ def sc_dump(ctx, a, seam):
     return sdl.dump(a["path"], ctx.arg(a["d"]))
 
 
+def _judge_unacknowledged(ctx, res, rec):
+    """a path whose last save failed or was interrupted: the load may raise (nothing is promised about THAT), but a
+    drawing it does return was saved there - the last acknowledged one or one a writer since then tried to save;
+    a mixture of two saves is a circuit nobody serialised.  No verdict when the writers overlapped, the file was
+    removed or damaged by a foreign writer, or any candidate is outside the domain."""
+    from . import engine
+    elm, sdl, circuit_translator, sch = _mods()
+    cands = rec.get("saw_cands")
+    if not cands or isinstance(res, BaseException):
+        return None
+    idx = ctx.model_state.get("step_index")
+    if idx is None:
+        idx = ctx.model_state["step_index"] = engine.index_steps(ctx.plan)
+    exps = []
+    for c in cands:
+        s = idx.get(c)
+        if s is None or s["op"] != "sc.dump":
+            return None
+        o = _origin_of(ctx, s["a"]["d"])
+        if o is None:
+            return None
+        e = _origin_circuit(ctx, o)
+        if isinstance(e, tuple):
+            return None
+        exps.append((o, e))
+    try:
+        got = circuit_translator(res)
+    except Exception:
+        return None
+    ctx.probe("load_after_failed_save_returned_a_drawing")
+    diffs = []
+    for o, e in exps:
+        d = iso(e, got)
+        if d is None:
+            _set_origin(ctx, rec, o)
+            return None
+        diffs.append(d)
+    return _viol("load-after-failed-save-neither-old-nor-new", " | ".join(diffs)[:400])
+
+
 def model_load(ctx, a, res, rec):
     saw = rec.get("saw")
     origin = None
@@ -281,7 +321,7 @@ def model_load(ctx, a, res, rec):
         origin = ctx.model_state.get("sc_dumps", {}).get(saw[1])
     _set_origin(ctx, rec, origin)
     if origin is None:
-        return None                        # absent / unacknowledged / foreign content: nothing is promised
+        return _judge_unacknowledged(ctx, res, rec)
     faulted = rec.get("io_fault", {}).get("fired") and rec["io_fault"]["kind"] in ("read-eio", "open-fail")
     if faulted and isinstance(res, BaseException):
         return None
